@@ -310,6 +310,7 @@ __all__ = [
 ]
 
 import multiprocessing
+import pickle
 import traceback
 from types import TracebackType
 from typing import Optional
@@ -373,7 +374,17 @@ class RemoteTraceback(Exception):
         return self.tb
 
 
-def _rebuild_exception(exc: BaseException, tb: str):
+def _rebuild_exception(exc: BaseException | bytes, tb: str):
+    if isinstance(exc, bytes):
+        try:
+            exc = pickle.loads(exc)
+        except Exception as e:
+            # E.g. the class' `__init__` requires arguments that `args` does not hold.
+            # Do not break the receiver (a queue reader serving many requests);
+            # the traceback text still tells what happened.
+            exc = RuntimeError(
+                f'a remote exception could not be rebuilt in this process ({e!r}); see its traceback'
+            )
     exc.__cause__ = RemoteTraceback(tb)
 
     return exc
@@ -478,4 +489,6 @@ class RemoteException:
         return f"{self.__class__.__name__}('{self.exc.__str__()}')"
 
     def __reduce__(self):
-        return _rebuild_exception, (self.exc, self.tb)
+        # The exception object is pickled here rather than as part of the enclosing message,
+        # so that a failure to rebuild it is handled in `_rebuild_exception`.
+        return _rebuild_exception, (pickle.dumps(self.exc), self.tb)
